@@ -187,7 +187,8 @@ class AstAnalyzer:
                     prev = curr
                     # The loop may run zero times: everything live after it is live before it.
                     curr = visit_block(stmt.body, prev).difference({p_loop_var}) | live_out
-                return curr
+                # The loop header (the bound in `range(n)`) is evaluated before the loop.
+                return curr | _used_vars(stmt.iter)
             if isinstance(stmt, ast.While):
                 cond_vars = _used_vars(stmt.test)
                 prev = None
